@@ -59,6 +59,9 @@ CHECKS = {
  "C06": dict(engine="E1-world + rogue toolkit + bindings", category="exploration", technique="structure-aware mutation-based property testing (outer event fields; inner MLS bytes re-encrypted under the right secret; key-package fields; junk arguments through the bindings) with a before/after fingerprint oracle and panic detection",
    text="(1) generated world histories in which members mutate events they can open (22 mutation kinds from the wrapper's kind/timestamp/tag down to bit flips and clear framing-header edits behind the NIP-44 layer) and hand them to members in every state; every refused hand-over must leave all groups of that client identical; panics are violations. (2) one-field mutations of valid key-package events through parse_key_package / add_members. (3) call sequences over every exported mdk-uniffi method with junk strings and byte vectors: no panic. A coverage-guided libFuzzer campaign over the same entry points complements this (see /verif/fuzz). Search, not proof.",
    note="Only refused results are judged (accepted mutants are other properties' business); OpenMLS-internal ratchet state is not observable; the rollback-before-validation behaviour is listed finding O15.", ref="DESIGN.md §4 C06"),
+ "C14": dict(engine="log/error capture layer over E1-world, E3-crash and the invitation world", category="exploration", technique="property-based testing with a needle search (secrets and identifiers read back through the API, four encodings) over every captured tracing record, error text and result Debug of generated histories and hostile inputs",
+   text="The generated histories and hostile inputs of C01..C07, the crash-recovery runs of C12 and the invitation histories of C16 run under a capture of every tracing record (TRACE and up). MLS group ids, Nostr group ids ever in force, exporter secrets, image key / nonce / upload seed and database keys, in raw / hex / base64 / Rust byte-list form, are searched in every record of the mdk crates' targets, in Display and Debug of every error, in Debug of every processing result and of the secret-holding types. Search, not proof.",
+   note="Needles are read back through the API after each step, so a value logged before the harness could know it is still found; public data (event ids, member public keys, relay URLs) is not a needle.", ref="DESIGN.md §4 C14"),
 }
 
 checks = []
